@@ -298,6 +298,14 @@ def runFuel {α : Type} (inp : Input) (file : List α) (chosen : α → Bool) (f
   | .httpScenario | .grpcScenario => scenarioRun file inp.b inp.cancelAt fuel
   | .genericJson => genericRun file inp.b inp.cancelAt fuel
 
+/-- core/engine/engine.go `awaitRun` with lib/errutil `IsCtxError`: the pool run fails ("provider failed") on a
+provider error unless that error is the run context's own error (nil is never a failure). -/
+def poolFailsOnProvider (r : RunRes) (runCtxCancelled : Bool) : Bool :=
+  match r with
+  | .nil => false
+  | .canceled => !runCtxCancelled
+  | _ => true
+
 /-- least of the bounds that are present (`0` = absent; `none` = no bound at all) -/
 def minPlus (a b : Nat) : Nat := if a = 0 then b else if b = 0 then a else min a b
 
